@@ -1,0 +1,20 @@
+//go:build verif
+
+package log
+
+// VerifCritPanic is the value Crit panics with when a verification harness
+// asked for process termination to be observable in-process.
+type VerifCritPanic struct{ Msg string }
+
+var verifCritHandler func(msg string)
+
+// VerifSetCritHandler installs f to run instead of os.Exit(1) at the end of
+// Crit (build tag verif only). f normally panics with VerifCritPanic so the
+// harness can treat the call as the death of the node. nil restores os.Exit.
+func VerifSetCritHandler(f func(msg string)) { verifCritHandler = f }
+
+func verifCrit(msg string) {
+	if f := verifCritHandler; f != nil {
+		f(msg)
+	}
+}
